@@ -1,47 +1,67 @@
-import FstVerif.Model.Sink
+import FstVerif.Proofs.EndToEnd
 /-
-C06 — ordering contract; rejected inserts leave no trace.
+C06 — builders enforce the ordering contract; rejected inserts leave no trace.
+Statements here; proofs in Proofs/Build.lean (`insert_result`, `add_result`
+on every reachable state; `Reachable` = new + accepted insert/add calls) and
+by construction of the state machine (an error returns no new state).
 -/
-namespace Fst
+namespace Fst.Props
+open Fst
 
-/-- a map builder accepts a key iff it is strictly greater than the last accepted key;
-the errors carry the offending key(s) -/
-theorem C06_insert_check (s : BState) (k last : Key) (h : s.last = some last) :
-    s.checkLastKey k true =
-      if k == last then .error (.duplicateKey k)
-      else if lexLt k last then .error (.outOfOrder last k)
-      else .ok { s with last := some k } := by
-  simp [BState.checkLastKey, h]
+/-- MAP builder, on every reachable state: `insert k v` is accepted iff `k` is strictly
+greater than the last accepted key; otherwise it fails with exactly DuplicateKey{got = k}
+(equal) or OutOfOrder{previous = last, got = k} (smaller) -/
+theorem C06_insert_iff {s : BState} (h : Reachable s) (k : Key) (v : Nat) :
+    match s.last with
+    | none => ∃ s', s.insert k v = .ok s'
+    | some last =>
+      if lexLt last k then ∃ s', s.insert k v = .ok s'
+      else if k = last then s.insert k v = .error (.duplicateKey k)
+      else s.insert k v = .error (.outOfOrder last k) := insert_result h k v
 
-/-- a set builder accepts a key iff it is greater than or equal to the last accepted key -/
-theorem C06_add_check (s : BState) (k last : Key) (h : s.last = some last) :
-    s.checkLastKey k false =
-      if lexLt k last then .error (.outOfOrder last k) else .ok { s with last := some k } := by
-  simp [BState.checkLastKey, h]
+/-- SET builder: `add k` is accepted iff `k` is greater than or equal to the last accepted
+key (a repeat is accepted); otherwise exactly OutOfOrder{previous = last, got = k} -/
+theorem C06_add_iff {s : BState} (h : Reachable s) (k : Key) :
+    match s.last with
+    | none => ∃ s', s.add k = .ok s'
+    | some last =>
+      if lexLe last k then ∃ s', s.add k = .ok s'
+      else s.add k = .error (.outOfOrder last k) := add_result h k
 
-/-- the first key is always accepted -/
-theorem C06_first_key (s : BState) (k : Key) (d : Bool) (h : s.last = none) :
-    s.checkLastKey k d = .ok { s with last := some k } := by
-  simp [BState.checkLastKey, h]
+/-- a rejected call is the identity on the whole builder (pure state AND writer): nothing
+is written, counted or checksummed; the builder behaves as if the call never happened -/
+theorem C06_reject_identity (x : IOB) (e : BErr) :
+    (x.step (.error e)).1 = x ∧ (x.step (.error e)).2 = .error (.fst e) := ⟨rfl, rfl⟩
 
-/-- a rejected `insert`/`add` is the identity on the builder (pure state and writer) -/
-theorem C06_reject_identity (x : IOB) (e : BErr) : (x.step (.error e)).1 = x ∧ (x.step (.error e)).2 = .error (.fst e) :=
-  ⟨rfl, rfl⟩
+theorem C06_rejected_insert_writes_nothing (x : IOB) (k : Key) (v : Nat) (e : BErr)
+    (h : x.b.insert k v = .error e) : (x.insert k v).1 = x := by
+  simp [IOB.insert, h, IOB.step]
 
-/-- `insert` fails with an ordering error exactly when the key check fails, and then no state is produced -/
-theorem C06_insert_error_is_check (s : BState) (k : Key) (v : Nat) (e : BErr)
-    (h : s.checkLastKey k true = .error e) : s.insert k v = .error e := by
-  simp [BState.insert, h]
+theorem C06_rejected_add_writes_nothing (x : IOB) (k : Key) (e : BErr)
+    (h : x.b.add k = .error e) : (x.add k).1 = x := by
+  simp [IOB.add, h, IOB.step]
 
-theorem C06_add_error_is_check (s : BState) (k : Key) (e : BErr)
-    (h : s.checkLastKey k false = .error e) : s.add k = .error e := by
-  simp [BState.add, h]
+/-- a repeated key on a set builder is a no-op on the content: after any accepted
+non-decreasing sequence the file holds exactly the distinct keys -/
+theorem C06_set_repeat_noop (rows cols ty : Nat) (hty : ty < 2^64) (ks : List Key)
+    (hs : SortedKeysLe ks) (hn : (dedupKeys ks).length < 2^64) :
+    ∃ s bytes, addAll (BState.new rows cols) ks = .ok s ∧ s.fileBytes ty = .ok bytes ∧
+      (bytes.length < 2^64 → ∃ m, fstNew (Src.ofList bytes) = .ok m ∧ m.len = (dedupKeys ks).length) := by
+  obtain ⟨s, bytes, h1, h2, h⟩ := E2E.e2e_set rows cols ty hty ks hs hn
+  exact ⟨s, bytes, h1, h2, fun hsz => by
+    obtain ⟨m, hm, _, _, hl, _⟩ := h hsz
+    exact ⟨m, hm, hl⟩⟩
 
-/-- hence: the writer of an `IOB` is untouched by a rejected call, whatever the sink script -/
-theorem C06_rejected_call_writes_nothing (x : IOB) (k : Key) (v : Nat) (e : BErr)
-    (h : x.b.checkLastKey k true = .error e) : (x.insert k v).1 = x := by
-  simp [IOB.insert, C06_insert_error_is_check _ _ _ _ h, IOB.step]
+/-- `extend_iter` / `extend_stream` / `from_iter` are the fold of single calls that stops at
+the first rejected item with that item's error (`insertAll`, `addAll`) -/
+theorem C06_extend_stops_at_first (s : BState) (kv : Key × Nat) (rest : KV) (e : BErr)
+    (h : s.insert kv.1 kv.2 = .error e) : insertAll s (kv :: rest) = .error e := by
+  simp [insertAll, h]
 
-example : (BState.new 2 2).checkLastKey [1] true = .ok { BState.new 2 2 with last := some [1] } := rfl
+theorem C06_extend_continues (s s' : BState) (kv : Key × Nat) (rest : KV)
+    (h : s.insert kv.1 kv.2 = .ok s') : insertAll s (kv :: rest) = insertAll s' rest := by
+  simp [insertAll, h]
 
-end Fst
+example : Reachable (BState.new 2 2) := Reachable.new 2 2
+
+end Fst.Props
